@@ -2,7 +2,9 @@
 import vf, ntt_common as nc
 
 def configs(tier):
-    q = [(16, 4, 1), (16, 4, 2), (32, 4, 1), (32, 4, 3), (32, 4, 11), (32, 2, 29), (64, 4, 2), (64, 4, 7), (64, 2, 15), (64, 2, 1)]
+    q = [(16, 4, 1), (16, 4, 2), (32, 4, 1), (32, 4, 3), (32, 4, 11), (64, 4, 2), (64, 4, 7), (64, 2, 15), (64, 2, 1)]
+    # many moduli (the reduction shift has a log2(nmoduli) term): a spread of counts, compared with the independent zarith CRT
+    q += [(32, 2, nm) for nm in (17, 20, 29, 30, 33)] + [(64, 2, nm) for nm in (18, 25, 32, 33)]
     if tier != "quick":
         q += [(32, 4, 2), (32, 4, 7), (32, 4, 64), (32, 2, 291), (64, 4, 3), (64, 4, 7), (64, 4, 64), (64, 2, 1000), (16, 64, 2)]
     return q
@@ -18,11 +20,15 @@ def gen(ck, params, cfgs):
         def per(f): return [[f(p, cm, i) % p for i in range(n)] for cm, p in enumerate(ps)]
         pats = [("all p-1", per(lambda p, cm, i: p - 1)), ("zero", per(lambda p, cm, i: 0)), ("one", per(lambda p, cm, i: 1)),
                 ("one-hot modulus 0", per(lambda p, cm, i: (p - 1) if cm == 0 else 0)), ("one-hot last modulus", per(lambda p, cm, i: 1 if cm == nm - 1 else 0)),
-                ("random", per(lambda p, cm, i: rng.randrange(p))), ("random2", per(lambda p, cm, i: rng.randrange(p)))]
+                ("random", per(lambda p, cm, i: rng.randrange(p))), ("random2", per(lambda p, cm, i: rng.randrange(p))),
+                ("top of the range (accumulator near its bound)", per(lambda p, cm, i: p - 1 - rng.randrange(max(1, p >> 5)))),
+                ("top of the range 2", per(lambda p, cm, i: p - 1 - rng.randrange(max(1, p >> 4)))),
+                ("zero residue at modulus 0 only", per(lambda p, cm, i: 0 if cm == 0 else rng.randrange(p)))]
         head = "%d %d %d" % cfg
         for tag, v in pats:
             cases.append(("lift:" + tag, cfg, "lift %s %s" % (head, nc.flat(v))))
             cases.append(("lift_unlift:" + tag, cfg, "lift_unlift %s %s" % (head, nc.flat(v))))
+            cases.append(("lift_inplace (reused array):" + tag, cfg, "lift_inplace %s %s" % (head, nc.flat(v))))
         ints = [0, 1, Q - 1, Q, Q + 1, -1, -Q, -Q - 1, 2 ** 700, -(2 ** 700) + 12345, Q // 2, rng.randrange(Q), -rng.randrange(Q * Q), ps[0], -ps[-1]]
         for k in range(0, len(ints), n):
             chunk = (ints[k:k + n] + [7] * n)[:n]
